@@ -34,7 +34,8 @@ EXTENDS Integers, Sequences, FiniteSets, TLC
 
 CONSTANTS FreezeBeforeMetaFlush,
           CommitSeqBeforeWrite,  \* the replicator commits the sequence before it writes the rows (seeded change C07b)
-          SeriesFirst            \* the index flush commits the series family before the index families (seeded change C07c)
+          SeriesFirst,           \* the index flush commits the series family before the index families (seeded change C07c)
+          ExpireOnConsumed       \* the log of an expired family counts as empty once everything is CONSUMED (seeded change C07d)
 
 VARIABLES
   \* ---- durable ----
@@ -211,6 +212,19 @@ SyncGC ==
   /\ LET m == IF gAck < Len(wal) - 1 THEN gAck ELSE Len(wal) - 1 IN
      qAck' = IF m >= 0 /\ m > qAck THEN m ELSE qAck
   /\ UNCHANGED <<wal, gAck, dDict, dCounter, dFiles, dSeq, up, gCons, fSeq, mDict, mCounter, mem, imm, immSeq, gen, ifl, pendAck, ixvars>>
+
+\* Partition.IsExpire of a family that left the writable window (the periodic WAL GC task): Sync + GC, then the
+\* log counts as expired when no consumer group has data (appended <= acknowledged); an expired log is destroyed
+\* by the task (partition stopped and closed, directory removed): nothing is in the log afterwards
+ExpireCheck(res) ==
+  /\ up /\ ifl.st = "none"
+  /\ res = (Len(wal) - 1 <= (IF ExpireOnConsumed THEN gCons ELSE gAck))
+  /\ IF res
+       THEN qAck' = Len(wal) - 1 /\ gAck' = Len(wal) - 1 /\ gCons' = Len(wal) - 1
+       ELSE /\ LET m == IF gAck < Len(wal) - 1 THEN gAck ELSE Len(wal) - 1 IN
+               qAck' = IF m >= 0 /\ m > qAck THEN m ELSE qAck
+            /\ UNCHANGED <<gAck, gCons>>
+  /\ UNCHANGED <<wal, dDict, dCounter, dFiles, dSeq, up, fSeq, mDict, mCounter, mem, imm, immSeq, gen, ifl, pendAck, ixvars>>
 
 Crash ==
   /\ up /\ up' = FALSE
